@@ -60,7 +60,10 @@ InnerShowsLast(h, S) ==
          \* frames of an animation may be stacked on the same cells (whether a terminal
          \* replaces or stacks same-place images is its business); they must cover exactly
          \* the render rectangle and (CleanStep) never lie outside it
-         PlacementCover(S) = Inner(h)
+         /\ PlacementCover(S) = Inner(h)
+         \* on kitty itself the library makes every frame delete its predecessor (same z-index,
+         \* translucent frames would blend): no two placements may share a cell there
+         /\ (h.nostack => \A i, j \in DOMAIN S.pl : i # j => PlCover(S.pl[i]) \cap PlCover(S.pl[j]) = {})
     [] OTHER -> TRUE
 
 PaddingBlank(h, S) ==
